@@ -167,6 +167,10 @@ def run_unit(unit, rng, ctx):
     for idx, (nm, kd, c, j) in enumerate(atoms):
         coords[:, idx] = cent[:, c] if kd == 'c' else (sat[:, c, j] if kd == 's' else (free_tr[:, c] if kd == 'f' else spec[:, c]))
     coords = np.mod(coords, 1)
+    if unit['i'] % 3 == 0:
+        # every atom stored in its own periodic image (bonded atoms up to several cells apart in the input)
+        coords = coords + rng.integers(-3, 4, size=(1, coords.shape[1], 3)) + (rng.integers(-1, 2, size=coords.shape) if rng.integers(2) else 0)
+        ctx.count('inputs_with_atoms_in_arbitrary_periodic_images')
     traj = gen.make_trajectory(m, gen.species_objects([a[0] for a in atoms], rng=rng), coords, time_step=1e-15)
     what = f'{kind}{"/rot" if rot else ""} clusters={n_cl} T={T} bond={bond:.3f} rotation={mode}'
     wit = {'matrix': m, 'atoms': atoms, 'bond': bond}
